@@ -266,4 +266,35 @@ def install(it):
     it.opaque_calls["Specifier"] = SpecifierVal
     it.opaque_calls["SpecifierSet"] = SpecifierSetVal
     it.opaque_calls["default_environment"] = lambda: {}
+    it.opaque_calls["packaging.utils.canonicalize_version"] = canonicalize_version
+    it.opaque_calls["packaging.utils.canonicalize_name"] = lambda name, validate=False: re.sub(r"[-_.]+", "-", name).lower()
     return it
+
+
+def canonicalize_version(version, strip_trailing_zero=True):
+    """packaging.utils.canonicalize_version (documented behaviour): the normal form with the trailing zero release segments removed;
+    text that is not a version is returned unchanged."""
+    if isinstance(version, str):
+        try:
+            v = VersionVal(version)
+        except PyRaise:
+            return version
+    elif isinstance(version, VersionVal):
+        v = version
+    else:
+        raise AnalysisError(f"canonicalize_version of {version!r}")
+    rel = list(v.release)
+    if strip_trailing_zero:
+        while len(rel) > 1 and rel[-1] == 0:
+            rel.pop()
+    parts = []
+    if v.epoch:
+        parts.append(f"{v.epoch}!")
+    parts.append(".".join(str(x) for x in rel))
+    if v.pre is not None:
+        parts.append(f"{v.pre[0]}{v.pre[1]}")
+    if v.post is not None:
+        parts.append(f".post{v.post}")
+    if v.dev is not None:
+        parts.append(f".dev{v.dev}")
+    return "".join(parts)
